@@ -136,12 +136,13 @@ def rand_problem(rng, nmax=5, kmax=5, head_left=None, nbest=1, unary=True, beta=
     n = rng.randint(1, nmax)
     K = rng.randint(2, kmax)            # lexical categories 0..K-1; derived categories may be K..K+2
     ncat = K + rng.randint(0, 2)
-    hl = rng.random() < 0.5 if head_left is None else head_left
+    mixed = head_left == 'mixed'            # results of one pair may differ in head direction (not head-uniform)
+    hl = rng.random() < 0.5 if head_left in (None, 'mixed') else head_left
     binary = {}
     for x in range(ncat):
         for y in range(ncat):
             if rng.random() < dense:
-                binary[(x, y)] = [(rng.randrange(ncat), hl) for _ in range(rng.choice([1, 1, 1, 2, 3]))]
+                binary[(x, y)] = [(rng.randrange(ncat), (rng.random() < 0.5) if mixed else hl) for _ in range(rng.choice([1, 1, 1, 2, 3]))]
     un = {}
     if unary:
         # acyclic: a unary rule only leads to a larger category id
